@@ -45,6 +45,22 @@ CLAIMED.update({
         design='§5 C15'),
 })
 
+CLAIMED.update({
+    'C04': dict(
+        text='Theorem parseEflr_setBody: every non-empty set body produced by the model of EFLRSet._make_body_bytes '
+             '(set component, template, object components, attribute components with descriptor bits, count, '
+             'representation code, units, values) is accepted by the strict RP66 component parser with nothing left '
+             'over and decodes to the description it was built from; attr_value_bit / attr_count_matches / '
+             'empty_list_encoding state the value-bit and count clauses. Side conditions on the schema (labels '
+             'non-empty, distinct, valid IDENT) are discharged for the tables generated from the live package. Tie: '
+             'bodies of live sets of all 22 types vs the model on the description read from the same live objects.',
+        note='Trusted: Lean kernel + standard axioms; harness; ParseEflr.lean as the reading of RP66 ch. 3. FILE-HEADER '
+             '(hand-written components) is covered by an instance theorem + its own correspondence/oracle stream, '
+             'not by the general theorem.',
+        technique='Lean 4 proof (parser round-trip over the component grammar) + differential correspondence',
+        design='§5 C04'),
+})
+
 PENDING_REASON = 'check not built yet in this revision (model layer under construction); see DESIGN.md §12 build order'
 
 
